@@ -3,6 +3,7 @@ with the model), the rule that makes a case non-trivial, assumptions (DESIGN §2
 
 ENGINES = {
     "conc": {"shards_thorough": 14},
+    "concx": {"shards_thorough": 14},
     "seqr": {"shards_thorough": 14},
     "queue": {"shards_thorough": 8},
     "pure": {"shards_thorough": 8},
@@ -107,6 +108,7 @@ PROPS = {
     },
     "C03": {
         "engines": ["conc"],
+        "search_engines": ["concx"],
         "footprint": {"conc.run": ["trace", "rets", "done"], "state": ["vis", "hid", "cnt", "list"]},
         "nontrivial": r"^conc\.run .*trace=[^ ]*t0:[^ ]*t1:[^ ]*t0:",
         "rule": "E-conc: a level pre-loaded with 1-4 Standard/PostOnly/Iceberg/Reserve orders, 2-4 real threads each issuing 1-3 add/match/cancel/quantity-amend/read/next operations, run under a deterministic scheduler that admits one shared-memory operation (atomic, map or queue op) at a time following a random schedule (single steps or bursts); 150 programs x 12 schedules (thorough: 3000 x 40 per shard); the logged event trace, every return value and the aggregates read by the controller after every step are compared with the Lean small-step model run under the same schedule; non-trivial = an execution in which thread 0 and thread 1 actually interleave; judged by C03.ok: aggregates equal the sums over the resting orders at quiescence and per-order conservation (supplied = executed + returned + resting + discarded hidden of an exhausted non-replenishing reserve) for every id no thread amends",
@@ -114,6 +116,7 @@ PROPS = {
     },
     "C08": {
         "engines": ["conc"],
+        "search_engines": ["concx"],
         "footprint": {"conc.run": ["trace", "done"], "match": "*", "state": ["vis", "hid", "cnt", "list"]},
         "nontrivial": r"^conc\.run .*trace=[^ ]*t0:[^ ]*t1:[^ ]*t0:",
         "rule": "E-conc: a level pre-loaded with 1-4 Standard/PostOnly/Iceberg/Reserve orders, 2-4 real threads each issuing 1-3 add/match/cancel/quantity-amend/read/next operations, run under a deterministic scheduler that admits one shared-memory operation (atomic, map or queue op) at a time following a random schedule (single steps or bursts); 150 programs x 12 schedules (thorough: 3000 x 40 per shard); the logged event trace, every return value and the aggregates read by the controller after every step are compared with the Lean small-step model run under the same schedule; followed by a draining match issued after all threads have returned; judged: per key, inserts and successful removes alternate and never replace (C08.scan over the real trace), the drain leaves nothing displayed and the aggregates describe exactly what remains (C06.ok, C01.ok)",
@@ -121,6 +124,7 @@ PROPS = {
     },
     "C12": {
         "engines": ["conc"],
+        "search_engines": ["concx"],
         "footprint": {"conc.run": ["obs", "trace"]},
         "nontrivial": r"^conc\.run .*trace=[^ ]*t0:[^ ]*t1:[^ ]*t0:",
         "rule": "E-conc: a level pre-loaded with 1-4 Standard/PostOnly/Iceberg/Reserve orders, 2-4 real threads each issuing 1-3 add/match/cancel/quantity-amend/read/next operations, run under a deterministic scheduler that admits one shared-memory operation (atomic, map or queue op) at a time following a random schedule (single steps or bursts); 150 programs x 12 schedules (thorough: 3000 x 40 per shard); the logged event trace, every return value and the aggregates read by the controller after every step are compared with the Lean small-step model run under the same schedule; the three aggregates read after every single step judged by C12.ok to lie within [0, total ever supplied] (a wrapped value is close to 2^64)",
@@ -128,13 +132,14 @@ PROPS = {
     },
     "C13": {
         "engines": ["conc"],
+        "search_engines": ["concx"],
         "footprint": {"conc.run": ["trace", "rets"]},
         "nontrivial": r"^conc\.run .*(cancel|map\.get)",
         "rule": "E-conc: a level pre-loaded with 1-4 Standard/PostOnly/Iceberg/Reserve orders, 2-4 real threads each issuing 1-3 add/match/cancel/quantity-amend/read/next operations, run under a deterministic scheduler that admits one shared-memory operation (atomic, map or queue op) at a time following a random schedule (single steps or bursts); 150 programs x 12 schedules (thorough: 3000 x 40 per shard); the logged event trace, every return value and the aggregates read by the controller after every step are compared with the Lean small-step model run under the same schedule; every not-found answer of a cancel / amend judged against the trace: justified unless another thread holds the order in flight and re-inserts it (known finding C13/in-flight); every successful cancel judged final (nobody takes or re-inserts the order afterwards)",
         "assumptions": ["as C03"],
     },
     "C14": {
-        "engines": ["conc"],
+        "engines": ["conc", "seq"],
         "footprint": {"conc.run": ["trace", "rets"], "match": ["txs"]},
         "nontrivial": r"uuid\.fetch_add[^ ]*uuid\.fetch_add",
         "rule": "E-conc: a level pre-loaded with 1-4 Standard/PostOnly/Iceberg/Reserve orders, 2-4 real threads each issuing 1-3 add/match/cancel/quantity-amend/read/next operations, run under a deterministic scheduler that admits one shared-memory operation (atomic, map or queue op) at a time following a random schedule (single steps or bursts); 150 programs x 12 schedules (thorough: 3000 x 40 per shard); the logged event trace, every return value and the aggregates read by the controller after every step are compared with the Lean small-step model run under the same schedule; every id-generator step must be exactly one fetch_add(1) on the counter, and the values handed out across all threads judged by C14.ok to be pairwise distinct and to form the range starting at the counter's previous value; transaction ids are mapped back to counters through v5(namespace, k) computed independently by the harness (reproducibility)",
